@@ -173,7 +173,7 @@ def cases(ctx):
             i += 1
     for k in range(ctx.share(200)):
         yield "noref", mkcase(rng, cprgen.rand_sphere_lat(rng), rng.uniform(-180, 180))
-    n = ctx.share(400000 if quick else 2000000)
+    n = ctx.share(400000 if quick else 8000000)
     dl = cprgen.directed_lats(rng, n // 2 + 1)
     for k in range(n):
         c = rng.random()
